@@ -184,9 +184,15 @@ func (r *Report) finish() (int, error) {
 		"wall_s":      time.Since(r.T0).Seconds(),
 		"violations":  len(violations),
 	}
-	os.MkdirAll(filepath.Join(verifDir, "evidence"), 0o755)
+	evDir := filepath.Join(verifDir, "evidence")
+	if r.Opts.repo != "/repo" {
+		// runs against a scratch copy (mutation tests, seeded changes) never
+		// touch the evidence of the real tree
+		evDir = filepath.Join(verifDir, "work", "evidence-scratch")
+	}
+	os.MkdirAll(evDir, 0o755)
 	data, _ := json.MarshalIndent(evd, "", " ")
-	if err := os.WriteFile(filepath.Join(verifDir, "evidence", r.Prop.ID+".json"), data, 0o644); err != nil {
+	if err := os.WriteFile(filepath.Join(evDir, r.Prop.ID+".json"), data, 0o644); err != nil {
 		return 2, err
 	}
 	for _, l := range knownLines {
